@@ -105,7 +105,8 @@ class GeometricSequence(Generic[T]):
         return expr * (1 - self.ratio ** (count)) / (1 - self.ratio)
 
     def get_prod(self, expr: TExpr[T], count: TExpr[T], backend: SymbolicBackend[T]) -> TExpr[T]:
-        return expr * (count + 1) * self.ratio ** ((count) * (count + 1) / 2)
+        # (an exact half: with native integers `count * (count + 1) / 2` is a float, and int ** float overflows)
+        return expr * (count + 1) * self.ratio ** (count * (count + 1) * backend.as_expression("1/2"))
 
     def substitute_symbols(self, inputs, backend: SymbolicBackend[T], functions_map=None) -> GeometricSequence[T]:
         if functions_map is None:
